@@ -15,7 +15,7 @@ use math::{
 };
 use utils::Deserializable;
 use winter_prover::{
-    matrix::{ColMatrix, RowMatrix},
+    matrix::{get_evaluation_offsets, ColMatrix, RowMatrix, Segment},
     StarkDomain,
 };
 
@@ -204,6 +204,39 @@ fn matrices<B: StarkField, E: FieldElement<BaseField = B>>(field: &str, rng: &mu
     }
 }
 
+/// Segment::new called directly at EVERY admissible polynomial offset (not only the multiples of the segment width that
+/// build_segments passes): row r, slot j holds base-field coordinate (poly_offset + j) of the matrix evaluated at
+/// offset * w^r, for every slot that has a polynomial; a buffer handed to new_with_buffer is fully overwritten there
+fn segments<B: StarkField, E: FieldElement<BaseField = B>, const N: usize>(field: &str, rng: &mut Rng, cases: &mut u64) {
+    for (n, cols, blowup) in [(8usize, 3usize, 2usize), (8, 10, 2), (16, 8, 4), (8, 9, 8), (8, 17, 2)] {
+        let offset = B::GENERATOR;
+        let values: Vec<Vec<E>> = (0..cols).map(|_| (0..n).map(|_| elem::<E>(rng)).collect()).collect();
+        let polys = ColMatrix::new(values.clone());
+        let twiddles = fft::get_twiddles::<B>(n);
+        let offsets = get_evaluation_offsets::<B>(n, blowup, offset);
+        let want: Vec<Vec<E>> = (0..cols).map(|c| direct::<B, E>(&values[c], n * blowup, offset)).collect();
+        let base_cols = cols * E::EXTENSION_DEGREE;
+        for poly_offset in 0..base_cols {
+            let ctx = format!("field={field} rows={n} columns={cols} blowup={blowup} segment_width={N} poly_offset={poly_offset}");
+            *cases += 1;
+            let seg = guarded("Segment::new", &ctx, || Segment::<B, N>::new(&polys, poly_offset, &offsets, &twiddles));
+            let stale = vec![[B::from(0xDEADu32); N]; n * blowup];
+            let seg2 = guarded("Segment::new_with_buffer", &ctx, || Segment::<B, N>::new_with_buffer(stale, &polys, poly_offset, &offsets, &twiddles));
+            if seg.num_rows() != n * blowup {
+                fail(format!("Segment::new returned {} rows: {ctx}", seg.num_rows()));
+            }
+            for j in 0..N.min(base_cols - poly_offset) {
+                let (c, k) = ((poly_offset + j) / E::EXTENSION_DEGREE, (poly_offset + j) % E::EXTENSION_DEGREE);
+                for r in 0..n * blowup {
+                    if seg[r][j] != want[c][r].base_element(k) || seg2[r][j] != want[c][r].base_element(k) {
+                        fail(format!("Segment::new: row {r}, slot {j} differs from direct evaluation of base column {}: {ctx}", poly_offset + j));
+                    }
+                }
+            }
+        }
+    }
+}
+
 #[test]
 fn fft_and_lde_bounded() {
     let mut rng = Rng(0x853C49E6748FEA9B ^ seed().wrapping_mul(0xDA942042E4DD58B5) | 1);
@@ -233,5 +266,9 @@ fn fft_and_lde_bounded() {
     matrices::<f64::BaseElement, QuadExtension<f64::BaseElement>>("f64 quadratic", &mut rng, &mut cases);
     matrices::<f64::BaseElement, CubeExtension<f64::BaseElement>>("f64 cubic", &mut rng, &mut cases);
     matrices::<f128::BaseElement, QuadExtension<f128::BaseElement>>("f128 quadratic", &mut rng, &mut cases);
+    segments::<f64::BaseElement, f64::BaseElement, 4>("f64", &mut rng, &mut cases);
+    segments::<f64::BaseElement, f64::BaseElement, 8>("f64", &mut rng, &mut cases);
+    segments::<f128::BaseElement, QuadExtension<f128::BaseElement>, 4>("f128 quadratic", &mut rng, &mut cases);
+    segments::<f64::BaseElement, CubeExtension<f64::BaseElement>, 8>("f64 cubic", &mut rng, &mut cases);
     println!("NB-RESULT name=fft_and_lde_bounded cases={cases}");
 }
